@@ -107,14 +107,23 @@ def planted(task):
             out["n"] += 1
             seq = [("default", {}), ("create", {"create_cache": True}), ("cached", {"use_cache": True})]
             for name, opts in seq:
+                import warnings
+
+                # every third planted state: the caller treats warnings as errors (python -W error, pytest filterwarnings = error): an
+                # unusable cache may be worth a warning to some, it is never an exception
+                strict = k % 3 == 2
                 try:
-                    tree = ceos_alos2.open_alos2(drv.url, backend_options=dict(opts))
+                    with warnings.catch_warnings():
+                        if strict:
+                            warnings.simplefilter("error")
+                        tree = ceos_alos2.open_alos2(drv.url, backend_options=dict(opts))
                     d = project.diff(ref, project.fingerprint(tree))
                     if d:
                         out["bad"].append((f"{name}-wrong-tree", k, f"{'hole of' if hole else 'prefix'} {k}/{len(docs['a'])} in {task['where']}: open({opts}) returned a different tree: {d[:2]}"))
                         break
                 except BaseException as e:  # noqa: B902
-                    out["bad"].append((f"{name}-raises", k, f"{'hole of' if hole else 'prefix'} {k}/{len(docs['a'])} in {task['where']}: open({opts}) raised {type(e).__name__}: {str(e)[:120]}"))
+                    out["bad"].append((f"{name}-raises", k, f"{'hole of' if hole else 'prefix'} {k}/{len(docs['a'])} in {task['where']}{' (warnings are errors)' if strict else ''}: "
+                                       f"open({opts}) raised {type(e).__name__}: {str(e)[:120]}"))
                     break
             else:
                 cells = drv.cells()
